@@ -10,6 +10,7 @@ import mustpass as mp
 import orderdom
 from facts import const_int
 from ruleutil import find_fn, run_mustflow, raw_amount_ops
+import wildarms
 
 EXPLANATION = (
     "Fee sufficiency is enforced by a final gate; the structural facts it rests on are decided for all inputs: (MP) every Ok path of "
@@ -181,6 +182,8 @@ def check(rep, F, tier, replay=None):
         rep.inst("A-noraw")
         for sub, op, ty, loc in raw_amount_ops(F, fid, types={"u64", "i64", "u128", "i128"}):
             rep.violation("A-noraw", "%s|%s|%s" % (F.key(sub), op, ty), "%s uses the raw operator %s on %s at %s" % (F.key(sub), op, ty, facts.loc_str(loc, F.fns[sub])), {})
+    # signer / witness / reference-script enumerations feeding the size and fee: no variant silently dropped into a wildcard arm
+    wildarms.check(rep, F, "C06")
     return rep.finish(
         EXPLANATION,
         ["fees::min_fee / min_script_fee / min_ref_script_fee compute the ledger formulas (C15)", "fake witnesses have the byte size of real ones (fakes.rs constants)", "the signer union being complete per source is C18's matrix"],
